@@ -756,6 +756,11 @@ def run(ctx):
                 e = c10.explore_error(sc, origin, True)
                 ctx.count("evaluations")
                 ctx.hist("real_stack_error_resets", f"{sc}:{origin}:{','.join(e.get('reset_outcomes', ['none'])[:2])}")
+                if origin == "self" and not e.get("reset_outcomes"):
+                    # the audited lifecycle table: an answered ping in ERROR_PING_MISSED / ERROR_RF_FAULT / ERROR_NEEDS_ATTENTION resets
+                    ctx.violation(f"no-reset-on-answered-ping:real-stack:{sc}", {"kind": "real-stack-reset", "scenario": sc, "origin": origin},
+                                  "an answered ping in an error state resets the manager (lifecycle table of the audited commit)",
+                                  {"resets_issued": 0, "state_at_the_end_of_a_long_healthy_period": e.get("state_at_end")})
                 for outc, landed, frm in zip(e.get("reset_outcomes", []), e.get("reset_landed", []), e.get("reset_from", [])):
                     good = outc == "returned" and landed == {"state": "IDLE", "facade": False, "spa": False, "descriptors": False}
                     if not good:
